@@ -8,6 +8,7 @@
 (*   ediff     : M as above (its own call), E = ediff (q6), g = gediff (q6)         *)
 (*   pagerank  : dp, dq (d = dp/dq), f (integer falff; all ones renders None), r    *)
 (*   eigvec    : v (q6)        subgraph : c (q6)                                    *)
+(*   fwbig     : findwalks on 9..127 nodes: Wm, We, Wr, tw, wlm, wle, wlr (encoded)  *)
 (* EXACT clauses: WqIsPower, TotalsAreSums, MfptIsTheSolution (n <= 7) and           *)
 (* PagerankIsTheSolution (n <= 5), both only where the determinants fit 32 bits.    *)
 (* RESIDUAL / BOUND clauses (see RandomWalk.tla for the budgets): MfptEquation,      *)
@@ -34,6 +35,45 @@ JudgeFindwalks(r) ==
   (* of the returned counts                                                          *)
   Chk("TotalsAreSums", TotalsAreSums(n, r.Wq, r.twalk, r.wlq),
   "ok")))))))
+
+(* the same statement in the regimes of scale beyond TLC's (and, above 2^53, the floats') *)
+(* exact integers: 9 <= n <= 127, every returned float encoded as mantissa / exponent /  *)
+(* residue (RandomWalk.tla, "walk counts beyond 32 bits").  Fields: Wm, We, Wr [k][i][j],   *)
+(* tw = <<m, e, r>> (twalk), wlm, wle, wlr [k] (wlq).                                       *)
+JudgeFwBig(r) ==
+  LET n == r.n IN
+  Skip("fewer_than_2_nodes", n < 2,
+  Skip("not_binary", ~Is01(n, r.A),
+  Skip("magnitude", n > 127,
+  Chk("Returns",       r.raised = "",
+  Chk("WellFormed",    r.malformed = "" /\ BigEncodingOK(n, n, r.Wm, r.We, r.Wr, BigP)
+                         /\ DOMAIN r.wlm = 1..n /\ DOMAIN r.wle = 1..n /\ DOMAIN r.wlr = 1..n
+                         /\ DOMAIN r.tw = 1..3,
+  (* "the number of walks": a count is a finite, non-negative number                    *)
+  Chk("WqFinite",      BigFinite(n, n, r.Wm) /\ IsFinite(r.tw[1]) /\ \A k \in 1..n : IsFinite(r.wlm[k]),
+  Chk("WqNonNegative", BigNonNeg(n, n, r.Wm) /\ r.tw[1] >= 0 /\ \A k \in 1..n : r.wlm[k] >= 0,
+  LET nb == InNbTab(n, r.A)
+      C == ClipTab(n, r.A, n, T24)
+      R == ModTab(n, r.A, n, BigP)
+      clip(c) == BigClipOK(n, n, C, T24, r.Wm, r.We, c)
+      mod(c) == BigModOK(n, n, R, r.We, r.Wr, c)
+      rec(c) == BigRecOK(n, n, nb, r.Wm, r.We, c)
+      reg(c) == BigRegularOK(n, n, r.A, r.Wm, r.We, c)
+      c0 == clip(0)     c1 == clip(1)           \* evaluated at most once each
+      m0 == c0 /\ mod(0)   m1 == c1 /\ mod(1)
+      r0 == m0 /\ rec(0)   r1 == m1 /\ rec(1)
+      g0 == r0 /\ reg(0)   g1 == r1 /\ reg(1)
+  IN
+  (* "i.e. the entries of the corresponding power": exactly where the count is below 2^24 *)
+  Chk("WqIsPowerSmallCounts",  c0 \/ c1,
+  (* ... exactly (mod p) where the returned float is below 2^53                           *)
+  Chk("WqIsPowerBelow2p53",    m0 \/ m1,
+  (* ... and every slice is the previous one times A (relative 24-bit tolerance)          *)
+  Chk("WqRecurrence",          r0 \/ r1,
+  (* ... rows and columns of the power of a d-regular graph sum to d^k                    *)
+  Chk("WqRegularRowSums",      g0 \/ g1,
+  Chk("TotalsAreSums", BigTotalsOK(n, n, r.Wm, r.We, r.Wr, BigP, r.tw, r.wlm, r.wle, r.wlr),
+  "ok"))))))))))))
 
 (* "mean_first_passage_time returns M satisfying M[i,j] = 1 + sum over k != j of    *)
 (*  P[i,k] M[k,j] for the row-normalised transition matrix P of any connected       *)
@@ -125,6 +165,7 @@ Drift(r, c) ==
   CASE r.kind = "findwalks" ->
          IF r.raised = "" /\ r.malformed = "" /\ r.n >= 2 /\ r.n <= 8 /\ Is01(r.n, r.A)
          THEN (IF r.Wq = FwAll(r.n, r.A) THEN "same" ELSE "differs:Wq") ELSE "na"
+    [] r.kind = "fwbig" -> "na"
     [] r.kind = "mfpt" ->
          IF c = "ok" /\ r.n <= 7 /\ MfptExactFits(r.n, r.A) THEN "same" ELSE "na"
     [] r.kind = "pagerank" ->
@@ -132,7 +173,7 @@ Drift(r, c) ==
     [] OTHER -> "na"
 
 ClassOf(r) ==
-  CASE r.kind = "findwalks" -> IF r.A = Zero(r.n) THEN "no_edges" ELSE "has_edges"
+  CASE r.kind \in {"findwalks", "fwbig"} -> IF r.A = Zero(r.n) THEN "no_edges" ELSE "has_edges"
     [] r.kind \in {"mfpt", "ediff", "pagerank"} -> IF IsSym(r.n, r.A) THEN "undirected" ELSE "directed"
     [] r.kind \in {"eigvec", "subgraph"} ->
          IF ~IsSym(r.n, r.A) THEN "asymmetric"
@@ -141,6 +182,7 @@ ClassOf(r) ==
 
 Clause(r) ==
   CASE r.kind = "findwalks" -> JudgeFindwalks(r)
+    [] r.kind = "fwbig"     -> JudgeFwBig(r)
     [] r.kind = "mfpt"      -> JudgeMfpt(r)
     [] r.kind = "ediff"     -> JudgeEdiff(r)
     [] r.kind = "pagerank"  -> JudgePagerank(r)
